@@ -490,6 +490,16 @@ def run_one(tape, only=None):
             return pos.get(seq, 100 + seq)
         policy = {"kind": "target", "perm": list(perm), "rank": rank}
     sim = Sim(tape, policy, step_cap=6000)
+    if w.get("ext", "").endswith(".gz") and w["worker_type"] == "thread" and \
+            tape.flag("preempt_in_copy", 1, 2):
+        # thread workers that decompress at the same time: pre-empt them
+        # between two lines of typhon.files.utils (its copy loops included)
+        import typhon.files.utils as _umod
+        from sim.linepreempt import LinePreempt, periodic_points
+        sim.line_preempt = LinePreempt(
+            sim, [_umod], periodic_points(1 + tape.choice(5, "lp_phase"),
+                                          2 + tape.choice(9, "lp_stride"), 400),
+            only="pool")
     st = State(sim, tape, w)
     ST = st
     fsmod, FileSet, FileHandler = _T["fsmod"], _T["FileSet"], _T["FileHandler"]
@@ -586,6 +596,8 @@ def run_one(tape, only=None):
 
     res["violations"] = violations
     res["faults"] = dict(st.fired)
+    if sim.line_preempt is not None and sim.line_preempt.fired:
+        sim.probe("line_preemptions_in_decompressing_workers")
     res["probes"] = dict(sim.probes)
     res["nontrivial"] = sim.stats["decisions_gt1"] > 0 or bool(st.fired)
     res["wdigest"] = digest_of(w)
